@@ -1,6 +1,7 @@
 package formats
 
 import (
+	"encoding/json"
 	"fmt"
 	"io"
 	"log"
@@ -70,7 +71,7 @@ func ValueToJson(arena *fastjson.Arena, t octosql.Type, value octosql.Value) *fa
 			return arena.NewFalse()
 		}
 	case octosql.TypeIDString:
-		return arena.NewString(value.Str)
+		return newJSONString(arena, value.Str)
 	case octosql.TypeIDTime:
 		return arena.NewString(value.Time.Format(time.RFC3339))
 	case octosql.TypeIDDuration:
@@ -96,6 +97,22 @@ func ValueToJson(arena *fastjson.Arena, t octosql.Type, value octosql.Value) *fa
 	default:
 		panic(fmt.Sprintf("invalid octosql value type to print: %s", value.TypeID.String()))
 	}
+}
+
+// newJSONString makes sure the string is escaped with JSON syntax: fastjson quotes strings that
+// need escaping with strconv.Quote, whose \x00, \a, \v and \U escapes are not JSON.
+func newJSONString(arena *fastjson.Arena, s string) *fastjson.Value {
+	for i := 0; i < len(s); i++ {
+		if c := s[i]; c < 0x20 || c == 0x7f || c == '"' || c == '\\' || c >= 0xf0 {
+			data, err := json.Marshal(s)
+			if err != nil {
+				break
+			}
+			// NewNumberString stores the text verbatim, which is what we need for a pre-encoded token.
+			return arena.NewNumberString(string(data))
+		}
+	}
+	return arena.NewString(s)
 }
 
 func (t *JSONFormatter) Close() error {
